@@ -27,6 +27,13 @@ fn gen_ref_library(r: &mut Rng, n: usize, chain: bool) -> Vec<(String, String)> 
                 let link = if link.is_empty() { target.clone() } else { link };
                 if r.chance(1, 4) {
                     text.push_str(&format!("\n## sub {}.{}\n\n[t]({})\n\ntail {}.{}\n", i, j, link, i, j));
+                } else if !chain && r.chance(1, 4) {
+                    // a reference nested in a list item (bullet / ordered) or in a quote is a block reference too
+                    match r.below(3) {
+                        0 => text.push_str(&format!("\n- item {}.{}\n\n  [t]({})\n", i, j, link)),
+                        1 => text.push_str(&format!("\n1. first {}.{}\n\n   [t]({})\n\n2. second {}.{}\n", i, j, link, i, j)),
+                        _ => text.push_str(&format!("\n> quoted {}.{}\n>\n> [t]({})\n", i, j, link)),
+                    }
                 } else {
                     text.push_str(&format!("\n[t]({})\n", link));
                 }
@@ -54,6 +61,20 @@ fn expected_words(lib: &HashMap<String, String>, key: &str, depth: u8) -> Vec<St
         let Some(text) = lib.get(key) else { return };
         let dir = Key::from_file_name(key).parent();
         for line in text.lines() {
+            // containers: leading indentation, quote and list markers are not content
+            let mut line = line.trim_start();
+            loop {
+                let before = line;
+                for m in ["> ", ">", "- ", "1. ", "2. "] {
+                    if let Some(rest) = line.strip_prefix(m) {
+                        line = rest.trim_start();
+                        break;
+                    }
+                }
+                if line == before {
+                    break;
+                }
+            }
             if let Some(rest) = line.strip_prefix("[t](") {
                 let link = rest.trim_end_matches(')');
                 let target = md::resolve(link, &dir);
